@@ -527,7 +527,7 @@ func init() {
 		Run: func(c *mon.Ctx) {
 			ev := c.Counter("evaluations")
 			nt := c.DistinctSet("nontrivial")
-			n := c.Pick(60_000, 3_000_000)
+			n := c.Pick(60_000, 15_000_000)
 			c.ForEach(n, func(w, i int) {
 				r := c.Rand(1, uint64(i))
 				v := c12Value(r)
@@ -562,7 +562,7 @@ func init() {
 					}
 				}
 			})
-			ns := c.Pick(60_000, 2_000_000)
+			ns := c.Pick(60_000, 10_000_000)
 			c.ForEach(ns, func(w, i int) {
 				r := c.Rand(2, uint64(i))
 				s := c12GenSock(r)
